@@ -30,6 +30,7 @@ static void notice(const char*, ...) {}
 static std::string lastError;
 static void errorh(const char* fmt, ...) { char b[512]; va_list ap; va_start(ap, fmt); vsnprintf(b, sizeof b, fmt, ap); va_end(ap); lastError = b; }
 static GEOSContextHandle_t H;
+static std::string LASTIN;   // input-only form of the case being run (reported if GEOS or the harness throws while running it)
 static bool DRY = false;   // C19_DRY=1: emit only the input part of each case (what `replay` consumes), never call GEOS
 
 // ---------------------------------------------------------------- tokens
@@ -96,7 +97,7 @@ static std::string showPoint(GEOSGeometry* pt) {
 }
 
 static CE runLinref(const std::string& op, const LineSet& ls, bool multi, double a, double b) {
-    if (DRY) { CE r; r.c = op + " " + tokSet(ls) + " " + hex(a) + ((op == "P" || op == "S") ? " " + hex(b) : std::string()); r.e = "dry"; return r; }
+    { LASTIN = op + " " + tokSet(ls) + " " + hex(a) + ((op == "P" || op == "S") ? " " + hex(b) : std::string()); } if (DRY) { CE r; r.c = LASTIN; r.e = "dry"; return r; }
     GEOSGeometry* g = mkLineal(ls, multi);
     CE r; r.c = op + " " + tokSet(ls);
     if (op == "P") {
@@ -122,7 +123,7 @@ static CE runLinref(const std::string& op, const LineSet& ls, bool multi, double
 }
 
 static CE runRoundtrip(const LineSet& ls, bool multi, double px, double py) {
-    if (DRY) { CE r; r.c = "RT " + tokSet(ls) + " | " + hex(px) + " " + hex(py); r.e = "dry"; return r; }
+    { LASTIN = "RT " + tokSet(ls) + " | " + hex(px) + " " + hex(py); } if (DRY) { CE r; r.c = LASTIN; r.e = "dry"; return r; }
     GEOSGeometry* g = mkLineal(ls, multi);
     GEOSGeometry* p = GEOSGeom_createPointFromXY_r(H, px, py);
     double d = GEOSProject_r(H, g, p);
@@ -133,13 +134,13 @@ static CE runRoundtrip(const LineSet& ls, bool multi, double px, double py) {
 }
 
 static CE runInterpOracle(const LineSet& ls, bool multi, double d) {
-    if (DRY) { CE r; r.c = "IL " + tokSet(ls) + " " + hex(d); r.e = "dry"; return r; }
+    { LASTIN = "IL " + tokSet(ls) + " " + hex(d); } if (DRY) { CE r; r.c = LASTIN; r.e = "dry"; return r; }
     GEOSGeometry* g = mkLineal(ls, multi);
     CE r; r.c = "IL " + tokSet(ls) + " " + hex(d) + " | " + showPoint(GEOSInterpolate_r(H, g, d)); r.e = "ok";
     GEOSGeom_destroy_r(H, g); return r;
 }
 static CE runSubstringOracle(const LineSet& ls, bool multi, double f0, double f1) {
-    if (DRY) { CE r; r.c = "SL " + tokSet(ls) + " " + hex(f0) + " " + hex(f1); r.e = "dry"; return r; }
+    { LASTIN = "SL " + tokSet(ls) + " " + hex(f0) + " " + hex(f1); } if (DRY) { CE r; r.c = LASTIN; r.e = "dry"; return r; }
     GEOSGeometry* g = mkLineal(ls, multi);
     GEOSGeometry* s = GEOSLineSubstring_r(H, g, f0, f1);
     LineSet out; if (s) { collectLines(s, out); GEOSGeom_destroy_r(H, s); }
@@ -148,7 +149,7 @@ static CE runSubstringOracle(const LineSet& ls, bool multi, double f0, double f1
 }
 
 static CE runMerge(bool directed, const LineSet& ls) {
-    if (DRY) { CE r; r.c = std::string("M ") + (directed ? "1 " : "0 ") + tokSet(ls); r.e = "dry"; return r; }
+    { LASTIN = std::string("M ") + (directed ? "1 " : "0 ") + tokSet(ls); } if (DRY) { CE r; r.c = LASTIN; r.e = "dry"; return r; }
     GEOSGeometry* g = mkLineal(ls, true);
     GEOSGeometry* m = directed ? GEOSLineMergeDirected_r(H, g) : GEOSLineMerge_r(H, g);
     CE r; r.c = std::string("M ") + (directed ? "1 " : "0 ") + tokSet(ls) + " | ";
@@ -159,7 +160,7 @@ static CE runMerge(bool directed, const LineSet& ls) {
 }
 
 static CE runNode(const std::string& mode, const LineSet& ls) {
-    if (DRY) { CE r; r.c = "N " + mode + " " + tokSet(ls); r.e = "dry"; return r; }
+    { LASTIN = "N " + mode + " " + tokSet(ls); } if (DRY) { CE r; r.c = LASTIN; r.e = "dry"; return r; }
     GEOSGeometry* g = mkLineal(ls, true);
     GEOSGeometry* m = GEOSNode_r(H, g);
     CE r; r.c = "N " + mode + " " + tokSet(ls) + " | ";
@@ -170,9 +171,10 @@ static CE runNode(const std::string& mode, const LineSet& ls) {
 }
 
 static bool resultInvalid = false;
+static long st_polys = 0, st_holes = 0, st_dangles = 0, st_cuts = 0, st_invalid = 0;
 static CE runPolygonize(const std::string& mode, const LineSet& ls) {
     resultInvalid = false;
-    if (DRY) { CE r; r.c = "Y " + mode + " 0 " + tokSet(ls); r.e = "dry"; return r; }
+    { LASTIN = "Y " + mode + " 0 " + tokSet(ls); } if (DRY) { CE r; r.c = LASTIN; r.e = "dry"; return r; }
     GEOSGeometry* g = mkLineal(ls, true);
     std::vector<LineSet> polys; LineSet dang, cuts, inv; bool allValid = true;
     if (mode == "f") {
@@ -190,6 +192,8 @@ static CE runPolygonize(const std::string& mode, const LineSet& ls) {
         // by the API documentation but not by the property) is only counted
         if (p) { collectPolys(p, polys, allValid); if (GEOSisValid_r(H, p) != 1) resultInvalid = true; GEOSGeom_destroy_r(H, p); } else allValid = false;
     }
+    st_polys = (long) polys.size(); st_holes = 0; for (auto& rs : polys) st_holes += (long) rs.size() - 1;
+    st_dangles = (long) dang.size(); st_cuts = (long) cuts.size(); st_invalid = (long) inv.size();
     CE r; r.c = "Y " + mode + " " + (allValid ? "1" : "0") + " " + tokSet(ls) + " | " + std::to_string(polys.size());
     for (auto& rings : polys) r.c += " " + tokSet(rings);
     r.c += " | " + tokSet(dang) + " | " + tokSet(cuts) + " | " + tokSet(inv);
@@ -199,7 +203,7 @@ static CE runPolygonize(const std::string& mode, const LineSet& ls) {
 }
 
 static CE runShared(const LineSet& a, bool ma, const LineSet& b, bool mb) {
-    if (DRY) { CE r; r.c = "H " + tokSet(a) + " | " + tokSet(b); r.e = "dry"; return r; }
+    { LASTIN = "H " + tokSet(a) + " | " + tokSet(b); } if (DRY) { CE r; r.c = LASTIN; r.e = "dry"; return r; }
     GEOSGeometry* g1 = mkLineal(a, ma); GEOSGeometry* g2 = mkLineal(b, mb);
     GEOSGeometry* s = GEOSSharedPaths_r(H, g1, g2);
     CE r; r.c = "H " + tokSet(a) + " | " + tokSet(b) + " | ";
@@ -329,7 +333,10 @@ struct Gen {
         // shuffle
         for (size_t i = ls.size(); i > 1; i--) std::swap(ls[i - 1], ls[r.below(i)]);
         if (ls.empty()) ls.push_back(edgeLine(node(0), node(1), uniq));
-        return runMerge(directed, ls);
+        CE c = runMerge(directed, ls);
+        if (!DRY) { size_t bar = c.c.find(" | "); if (bar != std::string::npos) { long nout = std::atol(c.c.c_str() + bar + 3); out.count("merge_in_lines", (long) ls.size()); out.count("merge_out_lines", nout);
+            if (nout < (long) ls.size()) out.count("merge_case_something_merged"); } }
+        return c;
     }
 
     // ---- grid linework with crossings / overlaps / shared endpoints
@@ -384,6 +391,10 @@ struct Gen {
             int o = 20; es.push_back({{o, o}, {o + 6, o}}); es.push_back({{o + 6, o}, {o + 6, o + 6}}); es.push_back({{o + 6, o + 6}, {o, o + 6}}); es.push_back({{o, o + 6}, {o, o}});
             es.push_back({{o + 2, o + 2}, {o + 4, o + 2}}); es.push_back({{o + 4, o + 2}, {o + 4, o + 4}}); es.push_back({{o + 4, o + 4}, {o + 2, o + 4}}); es.push_back({{o + 2, o + 4}, {o + 2, o + 2}});
             if (r.chance(40)) { es.push_back({{o + 4, o + 4}, {o + 6, o + 6}}); out.count("poly_bridge_to_inner"); }
+            if (r.chance(30)) { out.count("poly_hole_touching_shell_at_vertex");      // a triangle inside the big square sharing its corner (o,o)
+                es.push_back({{o, o}, {o + 1, o + 3}}); es.push_back({{o + 1, o + 3}, {o + 1, o + 1}}); es.push_back({{o + 1, o + 1}, {o, o}}); }
+            if (r.chance(30)) { out.count("poly_second_hole");                         // a second, separate inner ring, touching the first at (o+4,o+2)? no: at (o+5,o+1)..(o+5,o+2)
+                es.push_back({{o + 5, o + 1}, {o + 5, o + 2}}); es.push_back({{o + 5, o + 2}, {o + 4, o + 2}}); es.push_back({{o + 4, o + 2}, {o + 5, o + 1}}); }
             if (r.chance(40)) { es.push_back({{o + 2, o + 2}, {o + 1, o + 1}}); out.count("poly_dangle_in_face"); } }
         if (es.empty()) es.push_back({{0, 0}, {1, 0}});
         // chain: repeatedly join two lines at a node of degree exactly 2 (keeps "lines touch only at endpoints")
@@ -407,6 +418,9 @@ struct Gen {
         std::string mode = r.chance(75) ? "f" : "v"; out.count(mode == "f" ? "poly_mode_full" : "poly_mode_valid_only");
         CE c = runPolygonize(mode, ls);
         if (resultInvalid) out.count("poly_valid_only_result_has_edge_adjacent_polygons");
+        if (!DRY) { out.count("poly_out_polygons", st_polys); out.count("poly_out_holes", st_holes); out.count("poly_out_dangles", st_dangles);
+            out.count("poly_out_cut_edges", st_cuts); out.count("poly_out_invalid_rings", st_invalid); out.count("poly_in_lines", (long) ls.size());
+            if (st_polys == 0) out.count("poly_case_no_polygon"); if (st_holes > 0) out.count("poly_case_with_hole"); }
         return c;
     }
 
@@ -480,7 +494,7 @@ int main(int argc, char** argv) {
     std::string stream = argv[1];
     if (stream == "replay") {
         std::ifstream f(argv[3]); std::string line;
-        while (std::getline(f, line)) { if (line.empty()) continue; alarm(30); try { CE c = replayLine(argv[2], line); std::cout << c.c << "\t" << c.e << "\n"; } catch (std::exception& e) { std::cout << "bad-case\t" << e.what() << "\n"; } }
+        while (std::getline(f, line)) { if (line.empty()) continue; alarm(30); try { CE c = replayLine(argv[2], line); std::cout << c.c << "\t" << c.e << std::endl; } catch (std::exception& e) { std::cout << line << "\tcrash:" << e.what() << std::endl; } }
         GEOS_finish_r(H); return 0;
     }
     if (argc < 5) return 2;
@@ -488,6 +502,7 @@ int main(int argc, char** argv) {
     { Out out(argv[4]); Rng r(seed); Gen g(r, out);
       for (long i = 0; i < n; i++) {
         CE c; alarm(30);
+        try {
         if (stream == "linref") c = g.linref();
         else if (stream == "oracle") c = g.oracle(false);
         else if (stream == "oracle_multi") c = g.oracle(true);
@@ -497,6 +512,7 @@ int main(int argc, char** argv) {
         else if (stream == "polygonize") c = g.polygonize();
         else if (stream == "sharedpaths") c = g.shared();
         else { std::fprintf(stderr, "unknown stream\n"); return 2; }
+        } catch (std::exception& e) { c.c = LASTIN; c.e = std::string("crash:") + e.what(); out.count("harness_caught_exception"); }
         out.emit(c.c, c.e);
       } }
     GEOS_finish_r(H);
